@@ -145,7 +145,19 @@ class Ten:
             shape[shape.index(-1)] = len(self.data) // known
         if prod(shape) != len(self.data):
             raise ShapeError("cannot reshape array of shape %s into %s" % (self.shape, tuple(shape)))
-        return Ten(shape, self.data)
+        r = Ten(shape, self.data)
+        # numpy: reshaping a contiguous array gives a view of the same memory (an in-place update of either is seen by the other)
+        if isinstance(self.data, ViewData):
+            idx = self.data.idx
+            if all(b - a == 1 for a, b in zip(idx, idx[1:])):
+                r.data = ViewData(self.data, range(len(idx)))
+                r.view = True
+        elif len(self.data) > 0:
+            r.data = ViewData(self.data, range(len(self.data)), owner=self)
+            r.view = True
+        isb = getattr(self, "isbool", False)
+        r.isbool = isb
+        return r
 
     def reduce(self, axis, keepdims=False, mean=False, op=None):
         axes = tuple(range(self.ndim)) if axis is None else tuple(a % self.ndim for a in (axis if isinstance(axis, (tuple, list)) else (axis,)))
@@ -551,6 +563,7 @@ class TenSym(PySym):
         res = Ten(shape, [t.data[o] for o in out])
         res.data = ViewData(t.data, out, owner=t)            # basic indexing: a view that shares the memory of t
         res.view = True
+        res.isbool = getattr(t, "isbool", False)
         return res
 
     def setitem(self, t, key, value, op=None):
@@ -674,6 +687,8 @@ class TenSym(PySym):
             d = dotted(n)
             if d in ("np.pi", "math.pi", "numpy.pi"):
                 return PI
+            if d in ("np.nan", "numpy.nan", "math.nan"):
+                return Rat(Poly.var("nan"))        # a marker value: nothing compares with it
             if d in ("np.inf", "numpy.inf", "math.inf"):
                 return INF      # "no limit": larger than every size of the model worlds (min(i + INF, n) = n, slice(a, INF) = a:)
             if d in ("np.newaxis",):
@@ -739,6 +754,13 @@ class TenSym(PySym):
             return tuple(items_) if isinstance(n, ast.Tuple) else items_
         if isinstance(n, ast.Subscript):
             base = self.ex(n.value)
+            if isinstance(base, Ten) and base.ndim >= 2 and not isinstance(n.slice, (ast.Tuple, ast.Slice)):
+                # a[mask] with a mask of several dimensions: the selected elements (rows), flattened over the masked axes, in C order
+                m_ = self.ex(n.slice)
+                if isinstance(m_, Ten) and m_.isbool and m_.ndim >= 2 and m_.shape == base.shape[:m_.ndim]:
+                    sel_ = [k_ for k_, x_ in enumerate(m_.data) if self.concrete(x_) != 0]
+                    per_ = prod(base.shape[m_.ndim:])
+                    return Ten((len(sel_),) + tuple(base.shape[m_.ndim:]), [base.data[k_ * per_ + j_] for k_ in sel_ for j_ in range(per_)])
             if isinstance(base, (list, tuple)):
                 k = self.key(n.slice)
                 if isinstance(k, (int, slice)):
@@ -1647,6 +1669,16 @@ class TenSym(PySym):
                             out.append(i.at(list(multi) + [k]))
                 return Ten((sh[0], sh[1], sum(i.shape[2] for i in items)), out)
             raise Unsupported("call %s" % cn)
+        if cn in ("np.cumsum", "np.cumprod") and n.args:
+            t_ = self.to_ten(self.ex(n.args[0]))
+            ax_ = self.pyval(self.kw(n, "axis", 1))
+            if t_.ndim != 1 and ax_ is not None:
+                raise Unsupported("%s along an axis of an array of shape %s" % (cn, t_.shape))
+            acc_, out_ = Rat(Poly.const(0 if cn == "np.cumsum" else 1)), []
+            for x_ in t_.data:
+                acc_ = acc_ + x_ if cn == "np.cumsum" else acc_ * x_
+                out_.append(acc_)
+            return Ten((len(out_),), out_)
         if cn in ("np.flatnonzero", "np.nonzero", "np.argwhere") and len(n.args) == 1:
             t_ = self.to_ten(self.ex(n.args[0]))
             cs_ = [x.const_value() for x in t_.data]
